@@ -1880,7 +1880,7 @@ fn run_world<F: Function + MathFunction + Clone + Cross>(
     rt::uninstall();
 }
 
-fn run(st: &Shared, mode: Mode) -> RunReport {
+fn run(st: &Shared, mode: Mode, tier: Tier) -> RunReport {
     let mut rep = RunReport::default();
     let (backend, fgs) = {
         let ch = &mut st.borrow_mut().ch;
@@ -1890,7 +1890,13 @@ fn run(st: &Shared, mode: Mode) -> RunReport {
         let fgs: Vec<FuncGen> = (0..nf)
             .map(|_| {
                 ch.span_begin();
-                let max_ops = *ch.pick("fn_size", &[6usize, 12, 30, 60, 120]);
+                // the thorough tier also draws 200-clause functions (spills
+                // for every register budget, long choice arrays)
+                let max_ops = if tier == Tier::Thorough {
+                    *ch.pick("fn_size", &[6usize, 12, 30, 60, 120, 200])
+                } else {
+                    *ch.pick("fn_size", &[6usize, 12, 30, 60, 120])
+                };
                 let f = gen_func(ch, max_ops);
                 ch.span_end(nf_at);
                 f
@@ -1914,10 +1920,10 @@ fn run(st: &Shared, mode: Mode) -> RunReport {
     rep
 }
 
-pub fn run_c10(st: &Shared, _tier: Tier) -> RunReport {
-    run(st, Mode::C10)
+pub fn run_c10(st: &Shared, tier: Tier) -> RunReport {
+    run(st, Mode::C10, tier)
 }
 
-pub fn run_c04(st: &Shared, _tier: Tier) -> RunReport {
-    run(st, Mode::C04)
+pub fn run_c04(st: &Shared, tier: Tier) -> RunReport {
+    run(st, Mode::C04, tier)
 }
